@@ -163,7 +163,7 @@ pub fn describe_network(bn: &BooleanNetwork) -> Value {
     json!({"vars": vars, "regs": regs, "params": params, "fns": fns})
 }
 
-fn un_name(op: &UnaryOp) -> &'static str {
+pub fn un_name(op: &UnaryOp) -> &'static str {
     match op {
         UnaryOp::Not => "not",
         UnaryOp::EX => "EX",
@@ -174,7 +174,7 @@ fn un_name(op: &UnaryOp) -> &'static str {
         UnaryOp::AG => "AG",
     }
 }
-fn bin_name(op: &BinaryOp) -> &'static str {
+pub fn bin_name(op: &BinaryOp) -> &'static str {
     match op {
         BinaryOp::And => "and",
         BinaryOp::Or => "or",
@@ -187,7 +187,7 @@ fn bin_name(op: &BinaryOp) -> &'static str {
         BinaryOp::AW => "AW",
     }
 }
-fn hyb_name(op: &HybridOp) -> &'static str {
+pub fn hyb_name(op: &HybridOp) -> &'static str {
     match op {
         HybridOp::Bind => "bind",
         HybridOp::Jump => "jump",
